@@ -86,7 +86,12 @@ class SimulatedExecutionEnvironment(ExecutionEnvironment):
         deterministic_problem = up.model.Problem(problem.name, problem.environment)
 
         for fluent in problem.fluents:
-            default_value = problem.initial_defaults.get(fluent.type, False)
+            # the default declared for the fluent (add_fluent already folded the
+            # per-type default into it); Boolean fluents without any default are
+            # false, as before
+            default_value = problem.fluents_defaults.get(fluent, None)
+            if default_value is None and fluent.type.is_bool_type():
+                default_value = False
             deterministic_problem.add_fluent(
                 fluent, default_initial_value=default_value
             )
@@ -131,10 +136,12 @@ class SimulatedExecutionEnvironment(ExecutionEnvironment):
         symbol_to_fnode = {}
         cnt = 0
         for hf in problem.hidden_fluents:
-            if not hf.is_not():
+            # a hidden fluent can be known to the problem only through a negated literal
+            atom = hf.arg(0) if hf.is_not() else hf
+            if atom not in fnode_to_symbol:
                 s = Symbol(f"v_{cnt}")
-                fnode_to_symbol[hf] = s
-                symbol_to_fnode[s] = hf
+                fnode_to_symbol[atom] = s
+                symbol_to_fnode[s] = atom
                 cnt += 1
 
         constraints = []
